@@ -2,6 +2,7 @@
    Only dispatch: every operation is a direct call of a model function. *)
 From FP.Model Require Import Sem.
 From FP.Model Require Locks.
+From FP.Model Require Buffer.
 Local Open Scope N_scope.
 
 Inductive op :=
@@ -11,7 +12,8 @@ Inductive op :=
  | OEnc (t : N) (fs : list value) (buf : list byte)
  | ODec (t : N) (fs : list value) (buf : list byte)
  | OZero (t : N)
- | OReg (cs : list Locks.call).
+ | OReg (cs : list Locks.call)
+ | OBuf (a : list byte) (k : nat) (os : list Buffer.bop).
 
 Inductive out :=
  | RBytes (r : res (list byte))
@@ -19,7 +21,8 @@ Inductive out :=
  | RNum (n : N)
  | RMsg (r : res (list value * list byte))
  | RZero (o : option (list value))
- | RRets (l : list Locks.ret).
+ | RRets (l : list Locks.ret)
+ | RBuf (l : list (option (list byte * nat * list (list byte)))).
 
 (* a sequence of registry calls against the atomic map, from the empty registry *)
 Fixpoint run_seq (cs : list Locks.call) (m : Locks.kvmap) : list Locks.ret :=
@@ -37,4 +40,5 @@ Definition run_op (w : world) (o : op) : out :=
   | ODec t fs buf => RMsg (run_dec w t fs buf)
   | OZero t => RZero (zero w t)
   | OReg cs => RRets (run_seq cs Locks.empty)
+  | OBuf a k os => RBuf (Buffer.brun (Buffer.new_buffer a k) os)
   end.
